@@ -147,6 +147,13 @@ def run(ctx):
         if sites and f.path not in covered and not f.path.startswith("bourse_book::market::") and "_serde" not in f.path:
             ctx.bad("grid", "unattributed|" + f.short(), ctx.loc(f), "%s writes an order price but is not reachable (through private helpers) from a public OrderBook entry the grid analysis covers" % f.short())
     for f in ctors:
+        if "price" in f.params:
+            # the grid test is made on the ARGUMENT: the constructor must store exactly that value
+            r = m.qi(f).ret()
+            pv = dict(zip(r[4], r[3])).get("price") if r[0] == "agg" else None
+            ctx.check(pv is not None and pv[0] == "param" and pv[2] == "price", "grid", "ctor-stores-arg|" + f.name, ctx.loc(f),
+                      "%s stores its price argument unchanged" % f.name,
+                      "%s stores %s as the order's price, not the (grid-checked) price argument" % (f.name, render(pv) if pv is not None else "?"))
         if "price" not in f.params:
             r = m.qi(f).ret()
             if r[0] == "agg":
